@@ -45,6 +45,10 @@ def gen_ops(rng, tier):
     for (a, b) in ((40, 30), (1, 1), (33, 17), (640, 480)):
         for delta in (0, -1, 1, -a * b + 1, 1000):
             ops.append("limit 0 %d %d %d" % (a, b, delta))
+            # the limit must hold whatever the instance did before: nothing, the header of another image, a whole other image,
+            # and through the planar-YUV entry point
+            for hist in (1, 2, 3, 4):
+                ops.append("limit 0 %d %d %d %d" % (a, b, delta, hist))
     for lim in (0, 1, 5, 9, 10, 11, 100):
         for tr in (0, 1):
             ops.append("limit 1 %d %d 0" % (lim, tr))
